@@ -1096,6 +1096,9 @@ func (s *Store[K, V]) Recover(version uint64, reader io.Reader) error {
 				return VersionMismatch
 			}
 			s.timerwheel.clock.SetStart(m.StartNano)
+			// the cached clock was taken relative to the old origin: reads
+			// must not trust it until the next tick refreshes it
+			s.timerwheel.clock.RefreshNowCache()
 			s.policy.sketch.EnsureCapacity(uint(m.Total))
 		case 2: // window lru
 			entryDecoder := gob.NewDecoder(reader)
